@@ -1,4 +1,3 @@
-(* WIP *)
 (* C08-C12 — the QoS state of ONE client session as the broker keeps it: the in-flight map keyed by
    packet identifier (ONE map for both directions, as inflight.go), the four quota counters with
    the saturating inc/dec of inflight.go, the packet-identifier counter with NextPacketID's scan
@@ -23,7 +22,8 @@ Record rec := {
   r_qos : N;
   r_uid : N;          (* ghost: which message (outbound PUBLISH, or the client's message behind a PUBREC record) *)
   r_created : Z;      (* Created (unix seconds) *)
-  r_expiry : Z;       (* Expiry; -1 = "send immediately when quota frees" (publishToClient's marking) *)
+  r_expiry : Z;       (* Expiry; negative = held back by flow control, "send when quota frees": publishToClient
+                         stores -1 - expiry (holdExpiry), i.e. -1 for a message that never expires *)
   r_pv5 : bool }.     (* ProtocolVersion = 5 of the stored packet (only matters for expiry) *)
 
 Definition imap := list (N * rec).
@@ -184,6 +184,10 @@ Definition teardown (s : st) : st :=
   if s_exp s then init_st                       (* ClearInflights, UnsubscribeClient, Clients.Delete *)
   else with_conn s false.
 
+(* holdExpiry / heldExpiry (inflight.go) *)
+Definition hold_expiry (e : Z) : Z := if (e <? 0)%Z then e else (-1 - e)%Z.
+Definition held_expiry (e : Z) : Z := if (e <? 0)%Z then (-1 - e)%Z else e.
+
 (* ---------- publishToClient (server.go:1033-1123), QoS part ---------- *)
 Definition zmin (a b : Z) : Z := if (a <? b)%Z then a else b.
 Definition out_publish (c : cfg) (s : st) (pubqos subqos uid : N) (now : Z) (mei : N) (ppv5 qfull : bool)
@@ -205,8 +209,9 @@ Definition out_publish (c : cfg) (s : st) (pubqos subqos uid : N) (now : Z) (mei
         let s2 := with_infl s1 (set i r (s_infl s1)) in
         let s3 := if isnew then with_sendq s2 (dec (s_sendq s2)) else s2 in
         if (sentq =? 0)%Z && (0 <? s_maxsend s3)%Z then
-          let r' := {| r_ty := T_PUBLISH; r_qos := q; r_uid := uid; r_created := now; r_expiry := (-1)%Z; r_pv5 := ppv5 |} in
-          (with_infl s3 (set i r' (s_infl s3)), [])                         (* held back: Expiry = -1 *)
+          let r' := {| r_ty := T_PUBLISH; r_qos := q; r_uid := uid; r_created := now; r_expiry := hold_expiry expiry;
+                       r_pv5 := ppv5 |} in
+          (with_infl s3 (set i r' (s_infl s3)), [])                         (* held back: Expiry = holdExpiry(Expiry) *)
         else if negb (s_conn s3) then (s3, [])                              (* stays in flight for the resend *)
         else if qfull then
           let s4 := with_infl s3 (del i (s_infl s3)) in
@@ -235,7 +240,7 @@ Definition in_publish (c : cfg) (s : st) (qos pid : N) (uid : N) (now : Z) (orc 
         let s2 := with_recvq s1 (dec (s_recvq s1)) in
         let aty := if qos =? 2 then T_PUBREC else T_PUBACK in
         let s3 := with_infl s2 (set pid (ack_rec aty uid c now) (s_infl s2)) in
-        let ack := OPkt aty pid false 0 0 (wire_rc s (if qos =? 2 then 0 else 1)) in
+        let ack := OPkt aty pid false 0 0 0 in
         let s4 := if qos =? 1 then
                     let s' := with_infl s3 (del pid (s_infl s3)) in with_recvq s' (inc (s_recvq s') (s_maxrecv s'))
                   else s3 in
@@ -319,7 +324,7 @@ Definition reconnect (c : cfg) (s : st) (v5 clean : bool) (sei rm : N) (orc : li
 
 (* ---------- ClearExpiredInflights ---------- *)
 Definition expired (c : cfg) (now : Z) (r : rec) : bool :=
-  (r_pv5 r && (0 <? r_expiry r)%Z && (r_expiry r <? now)%Z)
+  (r_pv5 r && (0 <? held_expiry (r_expiry r))%Z && (held_expiry (r_expiry r) <? now)%Z)
   || ((0 <? c_maxexp c)%Z && (c_maxexp c <? now - r_created r)%Z).
 
 (* ---------- one operation ---------- *)
